@@ -45,11 +45,13 @@ func (c *webRTCConn) Write(b []byte) (int, error) {
 	if c.dc != nil {
 		c.dc.Send(b)
 	}
+	vhook("conn.write", c, len(b), c.dc != nil)
 	return len(b), nil
 }
 
 func (c *webRTCConn) Close() (err error) {
 	c.once.Do(func() {
+		vhook("conn.pcclose", c)
 		err = c.pc.Close()
 	})
 	return
